@@ -90,6 +90,14 @@ func keys() map[string]*signKey {
 }
 
 func (k *signKey) jwk() map[string]string {
+	m := k.jwk0()
+	if k.kid == "" { // a key the provider publishes without a key ID (legal in a JWK set)
+		delete(m, "kid")
+	}
+	return m
+}
+
+func (k *signKey) jwk0() map[string]string {
 	if k.fam == "RSA" {
 		return map[string]string{"kty": "RSA", "kid": k.kid, "use": "sig", "n": b64.EncodeToString(k.rsa.N.Bytes()), "e": b64.EncodeToString(big.NewInt(int64(k.rsa.E)).Bytes())}
 	}
@@ -217,6 +225,7 @@ type tokenAnswer struct {
 	idToken string
 	refresh string
 	desc    string // error_description for 4xx kinds
+	verbose bool   // error answers: a long error object whose "error" member comes last, after several hundred bytes of other members
 	access  string // the access_token of the answer ("" = an opaque string); providers also hand out JWTs signed with the ID-token key
 }
 
@@ -417,6 +426,12 @@ func (p *provider) RoundTrip(r *http.Request) (*http.Response, error) {
 			json.NewEncoder(rec).Encode(M{"access_token": at, "expires_in": 3600, "token_type": "Bearer"})
 		case "4xx", "invalid_grant":
 			rec.WriteHeader(400)
+			if ans.verbose {
+				db, _ := json.Marshal(ans.desc + ": " + strings.Repeat("The provided authorization grant or refresh token is invalid, expired or revoked. ", 4))
+				rec.WriteString(`{"timestamp":"2000-01-01 00:00:00Z","trace_id":"0a1b2c3d-4e5f-6071-8293-a4b5c6d7e8f9","correlation_id":"f9e8d7c6-b5a4-9382-7160-5f4e3d2c1b0a","error_codes":[70008,700082],"error_description":` +
+					string(db) + `,"error_uri":"https://idp.test/errors/70008","error":"invalid_grant"}`)
+				break
+			}
 			json.NewEncoder(rec).Encode(M{"error": "invalid_grant", "error_description": ans.desc})
 		case "invalid_client":
 			rec.WriteHeader(401)
